@@ -8,7 +8,8 @@ FILES = ['theories/Base.v', 'theories/gen/Codec.v', 'theories/gen/Tp21Gen.v', 't
          'theories/Model21.v', 'theories/Replay21.v', 'proofs/CodecProofs.v', 'proofs/Flat.v', 'proofs/Tp21Seg.v',
          'proofs/Tp21Resp.v', 'proofs/Tp21Orig.v', 'proofs/TimeoutProofs.v',
          'theories/gen/Tp22Gen.v', 'theories/Model22.v', 'proofs/MpgProofs.v', 'proofs/PoolProofs.v', 'proofs/Tp22Proofs.v',
-         'proofs/RobustProofs.v', 'proofs/NoOversleep.v', 'proofs/NoOversleep22.v']
+         'proofs/RobustProofs.v', 'proofs/NoOversleep.v', 'proofs/NoOversleep22.v',
+         'proofs/Net21.v', 'proofs/Net21Proofs.v', 'proofs/Net21Timeout.v']
 T_FOLLOW = {'j1939-21': 7_000_000, 'j1939-22': 9_000_000}
 BOUND = {'j1939-21': 1_250_000, 'j1939-22': 3_000_000}
 PROBE = 25_000
